@@ -155,6 +155,29 @@ def _corpus(t):
     return dict(skip=None, rel=rel, cfg=cfgname, runs=runs, nontrivial=(rt != text), ascii=is_ascii, probs=probs)
 
 
+TINY = ['', '\n', ';', 'a', 'a\n', '//', '/**/', '\u00e9', '// \u00e9', '"\u6f22"', '\n\n', ' ', '\t\n']
+
+
+def _tiny(t):
+    """Commutation on documents of 0..4 characters (a file that is nothing but its BOM is the encoding of the empty document)."""
+    text, cfgname = t
+    K = CONFIGS[cfgname]
+    ref = fmt.fmt(enc(text, 'utf8'), 'C', K)
+    if ref.out is None:
+        return dict(text=text, cfg=cfgname, runs=1, probs=[], status='rejected')
+    rt = ref.out.decode('utf-8')
+    probs = []
+    runs = 1
+    for e in ENCODINGS[1:]:
+        r = fmt.fmt(enc(text, e), 'C', K)
+        runs += 1
+        if r.out is None:
+            probs.append(('rejected|' + e, '%s form of %r rejected (%s), UTF-8 form accepted' % (e, text, r.res.how())))
+        elif r.out != enc(rt, e):
+            probs.append(('not-commuting|' + e, 'format(%s(%r)) = %r, %s(format(x)) = %r' % (e, text, r.out[:24], e, enc(rt, e)[:24])))
+    return dict(text=text, cfg=cfgname, runs=runs, probs=probs, status='ok')
+
+
 def option_cases():
     """(name, input bytes, config, expectation) - expectation: ('bytes', b) | ('refused',) | ('observe',)"""
     t = 'int a; // ä€\U0001F600\nint üb;\n'
@@ -275,6 +298,12 @@ def check(ctx):
         for kind, desc in r['probs']:
             ctx.violation('%s|%s|%s' % (kind, r['cfg'], r['rel']), 'tests/input/%s config %s: %s' % (r['rel'], r['cfg'], desc),
                           files={'input': corpus.read(r['rel']), 'config.cfg': CONFIGS[r['cfg']]})
+    for r in pmap(_tiny, [(t, c) for t in TINY for c in sorted(CONFIGS)]):
+        ctx.evaluations += r['runs']
+        ctx.count('tiny_documents_' + r['status'])
+        for kind, desc in r['probs']:
+            ctx.violation('%s|tiny|%s|%r' % (kind, r['cfg'], r['text']), 'document %r config %s: %s' % (r['text'], r['cfg'], desc),
+                          files={'input.c': enc(r['text'], 'utf8'), 'config.cfg': CONFIGS[r['cfg']]})
     for name, probs in pmap(_option, option_cases()):
         ctx.evaluations += 1
         ctx.count('option_cases')
